@@ -152,7 +152,18 @@ func (ssc *defaultStatefulSetControl) ListRevisions(set *apps.StatefulSet) ([]*k
 		return nil, err
 	}
 	res := []*kubeapps.ControllerRevision{}
+	seen := map[string]bool{}
 	for _, item := range append(revisions.Items, revisinsToUpgrade.Items...) {
+		// a revision that carries both the selector labels and the upgrade marker is
+		// returned by both lists; keep it once
+		if seen[item.Name] {
+			continue
+		}
+		seen[item.Name] = true
+		// revisions controlled by another owner are not ours to use, renumber or trim
+		if ref := metav1.GetControllerOfNoCopy(&item); ref != nil && ref.UID != set.GetUID() {
+			continue
+		}
 		local := item
 		res = append(res, &local)
 	}
